@@ -336,6 +336,34 @@ func runC17(c *eng.Ctx) {
 			}
 		}
 	}
+	if fn := c.Fn("server/encryption.(*LocalEncryptionHandler).Read"); fn != nil && len(fn.Params) == 2 {
+		// every stored byte takes part in an integrity-checked step: byte 0 fixes the split, [1:split] is unwrapped (KWP
+		// integrity block), [split:] is opened (GCM tag). A split that does not come from byte 0 leaves that byte unchecked.
+		data := fn.Params[1]
+		fromByte0 := func(v ssa.Value) bool { return derivesFromIndex0(v, data, 0) }
+		var wk, ct *ssa.Slice
+		if cs := eng.CallsIn(fn, "server/encryption.LocalEncryptionHandler.unwrapDEK"); len(cs) == 1 {
+			wk, _ = eng.Strip(cs[0].Common().Args[len(cs[0].Common().Args)-1]).(*ssa.Slice)
+		}
+		if cs := eng.CallsIn(fn, "server/encryption.LocalEncryptionHandler.decryptData"); len(cs) == 1 {
+			ct, _ = eng.Strip(cs[0].Common().Args[len(cs[0].Common().Args)-1]).(*ssa.Slice)
+		}
+		if wk == nil || ct == nil {
+			c.Unresolved("wrapped-key and ciphertext slices of the stored form in Read")
+		} else {
+			okWK := wk.X == ssa.Value(data) && wk.Low != nil && eng.IntConst(1)(wk.Low) && wk.High != nil && fromByte0(wk.High)
+			if !okWK && wk.X == ssa.Value(data) {
+				// equally good: a fixed split with the length byte compared against it before anything is unwrapped
+				eq := eng.CmpEdges(fn, func(v ssa.Value) bool { return derivesFromIndex0(v, data, 0) }, func(v ssa.Value) bool { return true }, eng.EQ)
+				if g, _ := eng.GuardedBy(fn, wk, eq); g && len(eq) > 0 {
+					okWK = true
+				}
+			}
+			c.Check(okWK, "wrapped key is stored[1 : 1+stored[0]]", c.Pos(wk), "the split point is computed from the stored length byte", "the wrapped key is not cut out by the stored length byte: a corrupted byte 0 is not noticed by any integrity check and Read returns data")
+			okCT := ct.X == ssa.Value(data) && ct.High == nil && ct.Low != nil && wk.High != nil && (ct.Low == wk.High || sameExpr(ct.Low, wk.High, 0))
+			c.Check(okCT, "ciphertext is the rest of the stored form", c.Pos(ct), "stored[split:] with the same split point, to the end", "the ciphertext handed to GCM is not exactly the bytes after the wrapped key: some stored bytes are covered by no integrity check (or by the wrong one)")
+		}
+	}
 	if fn := c.Fn("server/encryption.(*LocalEncryptionHandler).generateDEK"); fn != nil {
 		ok := len(eng.CallsIn(fn, "crypto/rand.Read")) == 1
 		c.Check(ok, "data key randomness", p.Pos(fn.Pos()), "DEK from crypto/rand.Read", "the data encryption key is not generated by crypto/rand.Read")
@@ -393,3 +421,72 @@ func ackErrorName(k *ssa.Const) string {
 }
 
 var _ = ir.FuncKey
+
+// derivesFromIndex0: v is computed from data[0] by conversions and arithmetic with constants.
+func derivesFromIndex0(v ssa.Value, data ssa.Value, depth int) bool {
+	if depth > 5 {
+		return false
+	}
+	v = eng.Strip(v)
+	switch x := v.(type) {
+	case *ssa.Convert:
+		return derivesFromIndex0(x.X, data, depth+1)
+	case *ssa.ChangeType:
+		return derivesFromIndex0(x.X, data, depth+1)
+	case *ssa.BinOp:
+		if x.Op != token.ADD {
+			return false
+		}
+		if eng.IsConst(x.Y) {
+			return derivesFromIndex0(x.X, data, depth+1)
+		}
+		if eng.IsConst(x.X) {
+			return derivesFromIndex0(x.Y, data, depth+1)
+		}
+	case *ssa.UnOp:
+		if x.Op == token.MUL {
+			if ia, ok := x.X.(*ssa.IndexAddr); ok {
+				return ia.X == data && eng.IntConst(0)(ia.Index)
+			}
+		}
+	}
+	return false
+}
+
+// sameExpr: two values are the same expression over the same leaves (go/ssa does not share common subexpressions).
+func sameExpr(a, b ssa.Value, depth int) bool {
+	if a == b {
+		return true
+	}
+	if depth > 6 {
+		return false
+	}
+	a, b = eng.Strip(a), eng.Strip(b)
+	if a == b {
+		return true
+	}
+	switch x := a.(type) {
+	case *ssa.Const:
+		y, ok := b.(*ssa.Const)
+		return ok && sameOperand(x, y)
+	case *ssa.Convert:
+		y, ok := b.(*ssa.Convert)
+		return ok && sameExpr(x.X, y.X, depth+1)
+	case *ssa.BinOp:
+		y, ok := b.(*ssa.BinOp)
+		if !ok || x.Op != y.Op {
+			return false
+		}
+		if sameExpr(x.X, y.X, depth+1) && sameExpr(x.Y, y.Y, depth+1) {
+			return true
+		}
+		return (x.Op == token.ADD || x.Op == token.MUL) && sameExpr(x.X, y.Y, depth+1) && sameExpr(x.Y, y.X, depth+1)
+	case *ssa.UnOp:
+		y, ok := b.(*ssa.UnOp)
+		return ok && x.Op == y.Op && sameExpr(x.X, y.X, depth+1)
+	case *ssa.IndexAddr:
+		y, ok := b.(*ssa.IndexAddr)
+		return ok && sameExpr(x.X, y.X, depth+1) && sameExpr(x.Index, y.Index, depth+1)
+	}
+	return false
+}
